@@ -139,6 +139,27 @@ func readHeader(f *os.File) (*header, error) {
 		return nil, fmt.Errorf("internal error: need at least one chunk, found %d", numOffsets-1)
 	}
 
+	if h.uncompressedSize <= 0 {
+		return nil, fmt.Errorf("invalid uncompressed size in header: %d", h.uncompressedSize)
+	}
+
+	if h.compression == Zstandard {
+		// The chunk table must describe exactly the chunks needed for
+		// uncompressedSize bytes, otherwise offset calculations in the
+		// readers could divide by zero or index beyond the table.
+		if h.chunkSize == 0 {
+			return nil, errors.New("invalid chunk size in header: 0")
+		}
+		expectedChunks := h.uncompressedSize / int64(h.chunkSize)
+		if h.uncompressedSize%int64(h.chunkSize) > 0 {
+			expectedChunks++
+		}
+		if numOffsets-1 != expectedChunks {
+			return nil, fmt.Errorf("header has %d chunks, but %d bytes with chunk size %d require %d",
+				numOffsets-1, h.uncompressedSize, h.chunkSize, expectedChunks)
+		}
+	}
+
 	metadataSize := numOffsets*8 + 8 + 1 + 4 + 8
 	if int64(frameSize) != metadataSize {
 		return nil, fmt.Errorf("metadata frame size %d, but metadata size %d",
@@ -230,6 +251,12 @@ func GetUncompressedReadCloser(zstd zstdimpl.ZstdImpl, f *os.File, expectedSize 
 			expectedSize, h.uncompressedSize)
 	}
 
+	if offset > h.uncompressedSize {
+		_ = f.Close()
+		return nil, fmt.Errorf("offset %d is beyond the end of the blob (size %d)",
+			offset, h.uncompressedSize)
+	}
+
 	if h.compression == Identity {
 		// Simple case. Assumes that we only have one chunk if the data is
 		// uncompressed (which makes sense).
@@ -290,6 +317,11 @@ func GetUncompressedReadCloser(zstd zstdimpl.ZstdImpl, f *os.File, expectedSize 
 		_ = f.Close()
 		return nil, err
 	}
+	if remainder > int64(len(uncompressedFirstChunk)) {
+		_ = f.Close()
+		return nil, fmt.Errorf("chunk %d has %d bytes, expected more than %d",
+			chunkNum, len(uncompressedFirstChunk), remainder)
+	}
 
 	if chunkNum == int64(len(h.chunkOffsets)-2) {
 		// Last chunk in the file.
@@ -330,6 +362,12 @@ func GetZstdReadCloser(zstd zstdimpl.ZstdImpl, f *os.File, expectedSize int64, o
 		_ = f.Close()
 		return nil, fmt.Errorf("expected a blob of size %d, found %d",
 			expectedSize, h.uncompressedSize)
+	}
+
+	if offset > h.uncompressedSize {
+		_ = f.Close()
+		return nil, fmt.Errorf("offset %d is beyond the end of the blob (size %d)",
+			offset, h.uncompressedSize)
 	}
 
 	if h.compression == Identity {
@@ -395,6 +433,11 @@ func GetZstdReadCloser(zstd zstdimpl.ZstdImpl, f *os.File, expectedSize int64, o
 	if err != nil {
 		_ = f.Close()
 		return nil, err
+	}
+	if remainder > int64(len(uncompressedFirstChunk)) {
+		_ = f.Close()
+		return nil, fmt.Errorf("chunk %d has %d bytes, expected more than %d",
+			chunkNum, len(uncompressedFirstChunk), remainder)
 	}
 
 	chunkToRecompress := uncompressedFirstChunk[remainder:]
